@@ -757,6 +757,16 @@ class VM:
         if self.family in ("py", "php") and frame.root is not None:
             scope = frame.root
         name = row.get("name")
+        if self.family in ("py", "php") and frame.root is not None and scope is frame.root:
+            # Python / PHP have no declarations in the source: a variable_decl row for a name that is a PARAMETER of this
+            # activation declares a second variable of that name (lian binds the later uses to it, not to the parameter):
+            # it starts unbound, the argument value is no longer visible under that name
+            d = frame.root.defs.get(name)
+            drow = unit.row_by_id.get(d) if d is not None else None
+            if drow is not None and drow.get("operation") == "parameter_decl":
+                scope.vars[name] = UNBOUND
+                frame.root.defs.pop(name, None)
+                return None
         if "redeclaration-of-visible-variable" in self.switches and frame.root is not None:
             # compensation: a second variable_decl for a name that the same function (or, for top-level code, the unit)
             # already declares — the frontend's declaration pass lost track of the enclosing block's declaration
@@ -855,9 +865,6 @@ class VM:
                 return a << b
             if op == ">>":
                 return a >> b
-            if op == ".":
-                if fam == "php":
-                    return self.js_str(a) + self.js_str(b)
         except VMError:
             raise
         except Exception as e:
